@@ -67,8 +67,9 @@ def run_real(n, pokes, with_kernel_trace=False):
 
 
 def judge(run, traces, metas, tag):
-    for c0 in range(0, len(traces), 3000):
-        part = traces[c0:c0 + 3000]
+    CH = 400            # (a single JSON file of 3000 long link runs could not be read back by TLC's Json module)
+    for c0 in range(0, len(traces), CH):
+        part = traces[c0:c0 + CH]
         tf = run.scratch / ('%s_%d.json' % (tag, c0))
         tf.write_text(json.dumps(part))
         res = run_tlc('Trace_Uart', 'INIT Init\nNEXT Next\n', run.scratch / ('%s_%d' % (tag, c0)), env={'TRACE_FILE': str(tf)}, timeout=3000)
